@@ -13,8 +13,8 @@ from .c04 import slot_families
 def run(ctx: Ctx):
     sm = ctx.sm
     ctx.assume("equality of the matrices with the model's derivatives at every input is NOT decided (sympy's xreplace / jacobian are trusted)")
-    ctx.rule("R20.a", "states_matrix and rhs_matrix take their rows in the state order of the generated code (STATE slot family)", floor=11)
-    slot_families(ctx, "R20.a", only_family="STATE")
+    ctx.rule("R20.a", "states_matrix and rhs_matrix take their rows in the state order of the generated code (STATE slot family)", floor=3)
+    slot_families(ctx, "R20.a", only_family="STATE", floor=False, check_ru=False, producers=lambda p: p.func.rel.endswith("sympytools.py"))
 
     ctx.rule("R20.b", "the substitution of intermediates runs to a fixpoint: its bound is absent or derived from the size of the model, it always substitutes the complete map, and an error is raised only if intermediates are left", floor=6)
     f = sm.func("sympytools.py", "rhs_matrix")
